@@ -156,9 +156,13 @@ def step (s : State) (toks : List String) : State × String :=
       | .ok (.ok t) => ({ tview := some (TView.ofTensor t) }, "ok")
     | _, _ => ({}, "bad-op")
   | "@" :: "to_range" :: sS :: lS :: _ =>
-    -- `Range<usize>::from(IndexRange::new(start, length))` as written (dev profile)
+    -- `Range<usize>::from(IndexRange::new(start, length))`.  An end beyond `usize::MAX` is outside
+    -- what the properties speak about (an infallible conversion): the answer is neutral there and
+    -- the behaviour of the code as written (dev profile) is recorded after `##` only.
     match sS.toNat?, lS.toNat? with
-    | some st, some l => ({}, showOutcome (fun r => s!"ok {r.1}..{r.2}") (IndexRange.toStdRangePre ⟨st, l⟩))
+    | some st, some l =>
+      let shown := showOutcome (fun (r : Nat × Nat) => s!"ok {r.1}..{r.2}") (IndexRange.toStdRangePre ⟨st, l⟩)
+      ({}, if st + l ≤ usizeMax then shown else s!"outside-scope ## {shown}")
     | _, _ => ({}, "bad-op")
   | "@" :: "from_range" :: sS :: eS :: _ =>
     match sS.toNat?, eS.toNat? with
